@@ -151,7 +151,7 @@ Section SearchStream.
   Definition is_no (t : FrontierSpec.tri) : bool := match t with FrontierSpec.No => true | _ => false end.
   Definition edge_bad (c : config FN) (qjson : json) (cut : option (list nat)) (e : nat) : bool :=
     is_no (FrontierSpec.admissible c qjson cut e None).
-  (* (a, b) consecutive in a route in search order: b was reached from a *)
+  (* (a, b) driven consecutively, a then b: b itself is admissible but not after a *)
   Definition pair_bad (c : config FN) (qjson : json) (cut : option (list nat)) (a b : nat) : bool :=
     negb (edge_bad c qjson cut b) && is_no (FrontierSpec.admissible c qjson cut b (Some a)).
   Fixpoint first_bad_pair (bad : nat -> nat -> bool) (l : list nat) : option (nat * nat) :=
@@ -165,30 +165,38 @@ Section SearchStream.
     | SR.OEdge => Nat.eqb e (SR.q_source FN q) || match SR.q_target FN q with Some t => Nat.eqb e t | None => false end
     end.
 
+  (* a restricted turn (a, b) is a pair DRIVEN a-then-b: routes are read in travel order.  A forward search lists
+     its route in travel order, a reverse search lists it from the destination backwards. *)
+  Definition travel (d : dir) (r : list nat) : list nat := match d with Forward => r | Reverse => rev r end.
+
   (* None = accepted.  Reasons, most serious first:
-       edge        a tree or route edge other than the query's own origin/destination edges is inadmissible
-       turn        a restricted consecutive pair inside a route (not involving the query's own edges)
-       query-edge  an edge-oriented query's own origin / destination edge is inadmissible
-       query-turn  a restricted pair between a query edge and its neighbour in the route *)
-  Definition check_outcome (c : config FN) (qjson : json) (cut : option (list nat)) (q : query) (o : SR.outcome FN) : option string :=
+       edge          a tree or route edge other than the query's own origin/destination edges is inadmissible
+       turn          forward search: a restricted consecutive pair inside a route, not involving the query's own edges
+       reverse-turn  the same in a reverse search (class K_reverse_turn: the model is shown the pair swapped)
+       ksp-turn      the same in a route assembled by the single-via KSP algorithm (class K_ksp_turn)
+       query-edge    an edge-oriented query's own origin / destination edge is inadmissible   (class K_query_edges)
+       query-turn    a restricted pair between a query edge and its neighbour in the route     (class K_query_edges) *)
+  Definition check_outcome (c : config FN) (qjson : json) (cut : option (list nat)) (ksp : bool) (q : query) (o : SR.outcome FN) : option string :=
     if negb (String.eqb (SR.o_status FN o) "Ok") then None else
     let tree_edges := flat_map (fun t => map (fun x => let '(_, _, e, _, _, _) := x in e) t) (SR.o_trees FN o) in
-    let routes := map (SR.route_edges FN) (SR.o_routes FN o) in
+    let routes := map (fun r => travel (SR.q_dir FN q) (SR.route_edges FN r)) (SR.o_routes FN o) in
     let all_edges := List.app tree_edges (concat routes) in
     if existsb (fun e => edge_bad c qjson cut e && negb (is_query_edge q e)) all_edges then Some "edge" else
     if existsb (fun r => match first_bad_pair (fun a b => pair_bad c qjson cut a b && negb (is_query_edge q a) && negb (is_query_edge q b)) r with
-                         | Some _ => true | None => false end) routes then Some "turn" else
+                         | Some _ => true | None => false end) routes
+    then Some (if ksp then "ksp-turn" else match SR.q_dir FN q with Forward => "turn" | Reverse => "reverse-turn" end) else
     if existsb (fun e => edge_bad c qjson cut e) all_edges then Some "query-edge" else
     if existsb (fun r => match first_bad_pair (pair_bad c qjson cut) r with Some _ => true | None => false end) routes
     then Some "query-turn" else None.
 
   Definition search_S (fuel : nat) (id : Z) (nested : bool) (c : config FN) (qjson : json) (cut : option (list nat))
-                      (w : world) (q : query) (o : SR.outcome FN) (detail : nat) : string :=
+                      (ksp : bool) (w : world) (q : query) (o : SR.outcome FN) (detail : nat) : string :=
     line "S" id
-      (match check_outcome c qjson cut q o with
+      (match check_outcome c qjson cut ksp q o with
        | None => SR.show_outcome FN o detail
        | Some why =>
-           let ro := match build FN id_float nested c qjson cut with
+           let ro := if ksp then "?" else
+                     match build FN id_float nested c qjson cut with
                      | Ok m => if reopens fuel (with_frontier w m) q then "T" else "F"
                      | _ => "?"
                      end in
